@@ -25,6 +25,8 @@ type Project struct {
 	Types   map[string]reflect.Type
 	Foreign map[string]any
 	New     func() (any, any, any, func() graphql.ExecutableSchema)
+	// NewSchema builds the executable schema over another schema document (Config.Schema)
+	NewSchema func(*ast.Schema) graphql.ExecutableSchema
 	Options map[string]string
 }
 
